@@ -298,36 +298,40 @@ func ruleQ2(c *Ctx, id string) {
 					continue
 				}
 				n++
-				below := guardedBy(fn, b, func(cd Cond) (bool, bool) {
-					if cd.X == nil || cd.Y == nil {
+				below := guardedByX(fn, b, func(sub Subst) func(Cond) (bool, bool) {
+					return func(cd Cond) (bool, bool) {
+						if cd.X == nil || cd.Y == nil {
+							return false, false
+						}
+						if _, fl, _, _ := loadedFieldS(cd.Y, sub); fl != "sz" {
+							return false, false
+						}
+						switch cd.Op {
+						case token.LSS:
+							return true, true
+						case token.GEQ:
+							return true, false
+						}
 						return false, false
 					}
-					if _, fl, _, _ := loadedField(cd.Y); fl != "sz" {
+				}, nil, 0)
+				above := guardedByX(fn, b, func(sub Subst) func(Cond) (bool, bool) {
+					return func(cd Cond) (bool, bool) {
+						if cd.X == nil || cd.Y == nil {
+							return false, false
+						}
+						if k, isk := constIntDeep(cd.Y); !isk || k != logsize {
+							return false, false
+						}
+						switch cd.Op {
+						case token.GEQ:
+							return true, true
+						case token.LSS:
+							return true, false
+						}
 						return false, false
 					}
-					switch cd.Op {
-					case token.LSS:
-						return true, true
-					case token.GEQ:
-						return true, false
-					}
-					return false, false
-				})
-				above := guardedBy(fn, b, func(cd Cond) (bool, bool) {
-					if cd.X == nil || cd.Y == nil {
-						return false, false
-					}
-					if k, isk := constIntDeep(cd.Y); !isk || k != logsize {
-						return false, false
-					}
-					switch cd.Op {
-					case token.GEQ:
-						return true, true
-					case token.LSS:
-						return true, false
-					}
-					return false, false
-				})
+				}, nil, 0)
 				R.Check(below && above, id, fmt.Sprintf("kvs.%s|journal access#%d only for keys in range", fn.Name(), n), P.Pos(in.Pos()), "the access lies on the side key < sz and on the side key >= LOGSIZE", "dominated by both accepting edges", "the range test no longer keeps an out-of-range key from the journal: a put over a block of the write-ahead log (key < LOGSIZE) destroys the log, a key >= sz reads or writes beyond the store")
 			}
 		}
